@@ -67,6 +67,17 @@ class History:
         elif spec == "Q":
             self.hist.append("Q")
             self.drain()
+        elif spec[0] == "S":
+            # guided schedules: the solver picks one of a few step sequences; o = intake of the side where the user works, p = intake of the
+            # peer, s = one sync step, l/r = local/remote intake, Q = until quiet ("os" = the change is mirrored but the peer's echo is not read yet)
+            seq = spec[1][self.e.choose("sched", len(spec[1]))]
+            self.hist.append("g:" + seq)
+            o = getattr(self, "origin", 0)
+            for ch in seq:
+                if ch == "Q":
+                    self.drain()
+                else:
+                    self.step({"o": o, "p": 1 - o, "l": 0, "r": 1, "s": 2}[ch])
         else:
             if self.e.choose("gap", 2) == 0:
                 self.hist.append("Q")
